@@ -38,6 +38,10 @@ type input struct {
 	Type  int    `json:"type"`  // palette index
 	Inner int    `json:"inner"` // 0 static, 1 failing Value, 2 watching, 3 watching whose Watch fails
 	Steps int    `json:"steps"`
+	// the SAME wrapper instance is first asked about ANOTHER config type
+	// (palette index PrimeType): 0 not, 1 its Value, 2 its Watch, 3 both
+	Prime     int `json:"prime,omitempty"`
+	PrimeType int `json:"prime_type,omitempty"`
 }
 
 type childResult struct {
@@ -51,6 +55,7 @@ type childResult struct {
 // ---------------- scripted inner source ----------------
 
 type fakeSrc struct {
+	priming   bool // answering for another config type before the case proper: zero value, nothing recorded
 	failValue bool
 	failWatch bool
 	first     func(t reflect.Type) reflect.Value
@@ -60,6 +65,9 @@ type fakeSrc struct {
 }
 
 func (f *fakeSrc) Value(_ context.Context, t *dials.Type) (reflect.Value, error) {
+	if f.priming {
+		return reflect.New(t.Type()).Elem(), nil
+	}
 	if f.failValue {
 		return reflect.Value{}, errors.New("inner source failed on purpose")
 	}
@@ -69,6 +77,9 @@ func (f *fakeSrc) Value(_ context.Context, t *dials.Type) (reflect.Value, error)
 type fakeWatcher struct{ fakeSrc }
 
 func (f *fakeWatcher) Watch(_ context.Context, t *dials.Type, args dials.WatchArgs) error {
+	if f.priming {
+		return nil
+	}
 	if f.failWatch {
 		return errors.New("inner watch failed on purpose")
 	}
@@ -155,6 +166,12 @@ func runCase[T any](in input) childResult {
 		innerSrc = &inner.fakeSrc // not a Watcher
 	}
 	wrapped := sourcewrap.NewTransformingSource(innerSrc, xf.Manglers(chain)...)
+	if in.Prime != 0 {
+		// transparency: a wrapper that has served another config type behaves
+		// for this one exactly as a fresh wrapper does
+		res.Tags = append(res.Tags, fmt.Sprintf("wrapper-reused-after-%s-of-another-type", []string{"", "value", "watch", "value+watch"}[in.Prime]))
+		res.Direct = append(res.Direct, prime(ctx, wrapped, &inner.fakeSrc, in)...)
+	}
 	d, cfgErr := dials.Params[T]{OnWatchedError: func(context.Context, error, *T, *T) { wrappedErrs.add() }}.Config(ctx, defaults, wrapped)
 
 	initTerm := "IFail"
@@ -287,6 +304,42 @@ func runCase[T any](in input) childResult {
 	res.Nontrivial = in.Inner == 2 && in.Steps >= 2 && len(chain) >= 1
 	res.Tags = append(res.Tags, fmt.Sprintf("steps-%d", len(steps)), fmt.Sprintf("unreversible-steps-%d", nErrSteps), fmt.Sprintf("rejected-by-verify-or-stack-steps-%d", nRejected))
 	return res
+}
+
+// prime uses the wrapper for another config type of the palette first.
+func prime(ctx context.Context, wrapped dials.Source, inner *fakeSrc, in input) (direct []string) {
+	inner.priming = true
+	defer func() {
+		inner.priming = false
+		if r := recover(); r != nil {
+			direct = append(direct, fmt.Sprintf("wrapper panicked when first used for another config type: %v", r))
+		}
+	}()
+	ut := paletteTypes[in.PrimeType%len(paletteTypes)]
+	put := ptrify.Pointerify(ut, reflect.New(ut).Elem())
+	if in.Prime&1 != 0 {
+		v, err := wrapped.Value(ctx, dials.NewType(put))
+		if err == nil && v.Type() != put {
+			direct = append(direct, fmt.Sprintf("wrapped Value for %s returned a %s", put, v.Type()))
+		}
+	}
+	if w, ok := wrapped.(dials.Watcher); ok && in.Prime&2 != 0 {
+		w.Watch(ctx, dials.NewType(put), nopArgs{})
+	}
+	return direct
+}
+
+type nopArgs struct{}
+
+func (nopArgs) ReportNewValue(context.Context, reflect.Value) error         { return nil }
+func (nopArgs) BlockingReportNewValue(context.Context, reflect.Value) error { return nil }
+func (nopArgs) Done(context.Context)                                        {}
+func (nopArgs) ReportError(context.Context, error) error                    { return nil }
+
+var paletteTypes = []reflect.Type{
+	reflect.TypeOf(Cfg1{}), reflect.TypeOf(Cfg2{}), reflect.TypeOf(Cfg3{}), reflect.TypeOf(Cfg4{}), reflect.TypeOf(Cfg5{}),
+	reflect.TypeOf(CfgV1{}), reflect.TypeOf(CfgV2{}), reflect.TypeOf(Cfg6{}), reflect.TypeOf(Cfg7{}), reflect.TypeOf(Cfg8{}),
+	reflect.TypeOf(Cfg9{}), reflect.TypeOf(Cfg10{}),
 }
 
 // staticVal / nativeWatcher: the reference sources (already unmangled values)
@@ -443,7 +496,12 @@ func gen(r *coqfmt.Rng, n int, tier string) []json.RawMessage {
 		case 2:
 			inner = 3
 		}
-		b, _ := json.Marshal(input{K: "wrap", State: r.U64(), Type: r.Intn(12), Inner: inner, Steps: 1 + r.Intn(5)})
+		c := input{K: "wrap", State: r.U64(), Type: r.Intn(12), Inner: inner, Steps: 1 + r.Intn(5)}
+		if r.Chance(1, 4) {
+			c.Prime = 1 + r.Intn(3)
+			c.PrimeType = (c.Type + 1 + r.Intn(11)) % 12
+		}
+		b, _ := json.Marshal(c)
 		out = append(out, b)
 	}
 	return out
@@ -457,7 +515,7 @@ func main() {
 	}
 	driver.Main(driver.Engine{
 		Prop: "C20", CoqImport: "Dials.Check.C20Check", CoqRun: "run_cases",
-		Rule: "twelve static config types (nesting by value and pointer to depth 4, aliases on leaves and struct-typed fields at every level incl. family-specific alias tags, embedded value and pointer structs, []struct / [2]struct / map[string]struct with nested element structs, sets of strings / ints / named strings, named slices and maps, user pointers to scalars / slices / maps, arrays, complex, TextUnmarshaler; two types with a Verify method that rejects part of the update values: pointer and value receiver) (nesting by value/pointer, embedded value/pointer, alias tags on leaves and structs, sets, maps, []struct, [2]struct, durations, named scalars, TextUnmarshaler) x random defaults x a mangler chain from C10's generator (shipped chains, mixed chains, sub-chains) x inner source: static (1/10), failing Value (1/10), watching whose Watch fails (1/10), watching with 1-5 updates (7/10; one update in five is made un-reversible on purpose when the chain allows it: both names of an aliased field set, or an unparsable text, so sequences mix reversible and un-reversible values), each update a random filling of the translated type reported through ReportNewValue or BlockingReportNewValue; the value returned by every (Blocking)ReportNewValue is compared with the model (a blocking report returns the verdict of its own re-stack) and with the natively fed Dials, the View is read immediately after a blocking report returned and again after the update settled; after every step the View is compared with a reference Dials fed the already-unmangled value and with the model (reverse-translate, then stack onto the defaults); non-trivial: watching inner source with >= 2 updates; distinct = distinct PRNG case states; every case runs in a child process",
+		Rule: "twelve static config types (nesting by value and pointer to depth 4, aliases on leaves and struct-typed fields at every level incl. family-specific alias tags, embedded value and pointer structs, []struct / [2]struct / map[string]struct with nested element structs, sets of strings / ints / named strings, named slices and maps, user pointers to scalars / slices / maps, arrays, complex, TextUnmarshaler; two types with a Verify method that rejects part of the update values: pointer and value receiver) (nesting by value/pointer, embedded value/pointer, alias tags on leaves and structs, sets, maps, []struct, [2]struct, durations, named scalars, TextUnmarshaler) x random defaults x a mangler chain from C10's generator (shipped chains, mixed chains, sub-chains) x inner source: static (1/10), failing Value (1/10), watching whose Watch fails (1/10), watching with 1-5 updates (7/10; one update in five is made un-reversible on purpose when the chain allows it: both names of an aliased field set, or an unparsable text, so sequences mix reversible and un-reversible values), each update a random filling of the translated type reported through ReportNewValue or BlockingReportNewValue; the value returned by every (Blocking)ReportNewValue is compared with the model (a blocking report returns the verdict of its own re-stack) and with the natively fed Dials, the View is read immediately after a blocking report returned and again after the update settled; after every step the View is compared with a reference Dials fed the already-unmangled value and with the model (reverse-translate, then stack onto the defaults); one case in four REUSES the wrapper instance: it is first asked for the Value, the Watch or both of ANOTHER config type of the palette and must then behave for the case's type exactly as a fresh wrapper (same model outcome, same reference Dials); non-trivial: watching inner source with >= 2 updates; distinct = distinct PRNG case states; every case runs in a child process",
 		Gen:  gen, Run: run,
 	})
 	if cur != nil {
